@@ -94,7 +94,8 @@ example : ∃ (prog : List (Stmt Nat)) (s : Nat), checksFirst prog = false ∧
     store exactly as they were (every reachable or unreachable state, every request). -/
 theorem C10_frame_node (c : Cfg) (s s' : St) (op : Op)
     (h : step c s op = some (s', .err)) : s'.mem = s.mem ∧ s'.disk = s.disk := by
-  cases op <;> simp only [step, allowlistOp, keysend, newChannel, forgetChannel, restart, heartbeat, addBlocks, removeBlock] at h
+  cases op <;> simp only [step, allowlistOp, keysend, newChannel, forgetChannel, signInvoice, restart, heartbeat, addBlocks, removeBlock,
+    Core.updateNode, Core.updateAllowlist] at h
   all_goals (repeat' split at h)
   all_goals first
     | (cases h <;> exact ⟨rfl, rfl⟩)
@@ -290,6 +291,158 @@ example : ReqShape.lateChecks [.check, .mutate .chan true, .mutate .chan false, 
       [.check, .mutate .chan true, .mutate .chan false, .persist .chan]) 7 = (7, false) := by
   decide
 
+/-! #### Callees inlined, and the arms of the protocol handler
+
+`evs` lists each function's own statements.  `evsFull` replaces every call of another state-changing function
+of channel.rs / node.rs by the callee's events (so a mutation or a persist made *through a call* in front of a
+check is seen: e.g. a garbage collection of the channel map in front of the high-water-mark check of
+`find_or_create_channel`), and `armEvs` does the same for every arm of `do_handle` of the root and the channel
+handler (vls-protocol-signer/src/handler.rs) that reaches a state-changing function or touches the tracker /
+persister itself — the requests as the property counts them.  Alternatives of one `if/else` are listed one after
+the other (an over-approximation of "follows"). -/
+
+/-- functions with a refusing statement after an effect once callees are inlined: the four of `expectedLate`
+    and the helper `advance_holder_commitment_state`, whose tail call `release_commitment_secret` can refuse
+    after the setter assigned (the caller's entry, first item of `expectedLate`, argues why it does not) -/
+def expectedLateFull : List (Gen.ReqShape.Fn × Nat) :=
+  [(.advance_holder_commitment_state, 1), (.revoke_previous_holder_commitment, 1),
+   (.sign_holder_commitment_tx_for_recovery, 2), (.activate_initial_commitment, 1), (.check_onchain_tx, 1)]
+
+/-- **C10_gen_shape_table_full** (generated obligation) -/
+theorem C10_gen_shape_table_full :
+    (Gen.ReqShape.Fn.all.filterMap (fun f =>
+      if ReqShape.lateChecks (Gen.ReqShape.evsFull f) = 0 then none
+      else some (f, ReqShape.lateChecks (Gen.ReqShape.evsFull f)))) = expectedLateFull := by
+  decide +kernel
+
+/-- The handler arms with a refusing statement after an effect, and how many:
+
+* `root_SignCommitmentTx` (4): the two alternatives of one `if/else` (c-lightning's mutual-close workaround →
+  `sign_mutual_close_tx`, otherwise `sign_holder_commitment_tx_phase2`) are listed one after the other; the four
+  are the checks of the second alternative, no execution passes through both.
+* `chan_ValidateCommitmentTx`, `chan_ValidateCommitmentTx2` (9 each): the composite requests.  After the
+  validation (assign + persist) the same request goes on, depending on the protocol version, with
+  `revoke_previous_holder_commitment(commit_num)` (5 checks + the refusing setter), or
+  `get_per_commitment_point(commit_num + 1)?` (1), or `activate_initial_commitment()?` (2).  Their guards are
+  implied by the validation that just succeeded (`commit_num = next_holder_commit_num`, a counter-signed
+  successor is recorded): proved on the enforcement model for its composite operations (`C10_frame_channel`),
+  and watched by the simulator (`hvh*` through vls-core, `HVH` / `HVHO` through the real `ChannelHandler` at
+  protocol versions 6 and 4; that world found F24).
+* `chan_RevokeCommitmentTx` (2): the refusing setter inside `revoke_previous_holder_commitment` (first item of
+  `expectedLate`) and `old_secret.ok_or_else(..)?` after the revocation was made and persisted:
+  `release_commitment_secret(n)` returns no secret only for `n = 0`; the arm passes `commit_num + 1`.
+* `root_SignAnchorspend` (4): `sign_withdrawal` (→ `unchecked_sign_onchain_tx`, which records and persists the
+  funding inputs of channels the transaction funds) comes before the anchor lookup and
+  `sign_holder_anchor_input`, which can refuse ("anchor not found in psbt").  For a transaction that funds no
+  channel — what an anchor spend is — `unchecked_sign_onchain_tx` changes nothing; a request that both funds a
+  channel and lacks the anchor input would be refused after the monitor was updated.  Not produced by the
+  simulator (recorded in notes/C10.md as an observation, not as a finding). -/
+def expectedLateArm : List (Gen.ReqShape.Arm × Nat) :=
+  [(.root_SignCommitmentTx, 4), (.root_SignAnchorspend, 4), (.chan_ValidateCommitmentTx, 9),
+   (.chan_ValidateCommitmentTx2, 9), (.chan_RevokeCommitmentTx, 2)]
+
+/-- **C10_gen_arm_table** (generated obligation): in the current handler sources the arms with a refusing
+    statement after an effect are exactly the listed ones. -/
+theorem C10_gen_arm_table :
+    (Gen.ReqShape.Arm.all.filterMap (fun a =>
+      if ReqShape.lateChecks (Gen.ReqShape.armEvs a) = 0 then none
+      else some (a, ReqShape.lateChecks (Gen.ReqShape.armEvs a)))) = expectedLateArm := by
+  decide +kernel
+
+/-- … hence every other state-changing arm of the protocol handler — NewChannel, ForgetChannel, SignWithdrawal,
+    SignInvoice, SignHtlcTxMingle, AddBlock, RemoveBlock, GetHeartbeat, SetupChannel, SignRemoteCommitmentTx(2),
+    SignMutualCloseTx(2), SignLocalCommitmentTx2, ValidateRevocation — is in the discipline: whatever its checks
+    test and its effects do, a refused run returns the state it started from. -/
+theorem C10_gen_arm_frame {σ : Type} (a : Gen.ReqShape.Arm) (ha : a ∉ expectedLateArm.map (·.1))
+    (chk : Nat → σ → Bool) (eff : Nat → σ → σ) (s : σ)
+    (hr : (exec (toStmts chk eff 0 (Gen.ReqShape.armEvs a)) s).2 = false) :
+    (exec (toStmts chk eff 0 (Gen.ReqShape.armEvs a)) s).1 = s := by
+  apply C10_shape_frame _ _ _ _ _ hr
+  revert ha
+  cases a <;> decide +kernel
+
+theorem C10_gen_arm_all (a : Gen.ReqShape.Arm) : a ∈ Gen.ReqShape.Arm.all := by
+  cases a <;> decide +kernel
+
+/-- non-vacuity: the `AddBlock` arm as extracted (a check, the tracker mutation, the tracker write) is in the
+    discipline; moving work in front of the check — the shape of a collection pass in front of the
+    high-water-mark check — is not -/
+example : ReqShape.lateChecks (Gen.ReqShape.armEvs .root_AddBlock) = 0 ∧
+    ReqShape.lateChecks [.mutate .map false, .mutate .tracker false, .persist .chan, .persist .tracker, .check, .check,
+      .mutate .map false, .persist .chan] = 2 := by decide
+
+/-! #### The node-request model has the extracted order
+
+The hand-written model functions of `Model/NodeReq.lean` are *instances* of the extracted shapes: running the
+shape of the Rust function (`Gen.ReqShape.evs`, read from the current source) with the model's own check and
+effects, statement by statement, is the model function.  So the order "parse all entries — mutate — persist" of
+the allowlist requests and "high-water mark — map limit — insert — persist" of `find_or_create_channel` in the
+model is the order the source has now: moving a mutation in front of the check in the source (the F3 shape)
+changes `evs` and breaks these equalities. -/
+
+/-- the one check of the allowlist requests: every entry parses -/
+def alChk (entries : List (Option Nat)) : Nat → St → Bool := fun _ _ => (parseAll entries).isSome
+
+def alNew (s : St) (op : AlOp) (entries : List (Option Nat)) : List Nat :=
+  let xs := (parseAll entries).getD []
+  match op with
+  | .add => xs.foldl (fun acc x => insertSorted x acc) s.mem.allow
+  | .set => xs.foldl (fun acc x => insertSorted x acc) []
+  | .rm  => s.mem.allow.filter (fun y => !xs.contains y)
+
+/-- effects of `add_allowlist` / `remove_allowlist` by statement index: 1 = the in-memory update,
+    2 = `update_node_allowlist` -/
+def alEff (op : AlOp) (entries : List (Option Nat)) : Nat → St → St := fun i s =>
+  if i = 1 then { s with mem := { s.mem with allow := alNew s op entries } }
+  else { s with disk := s.disk.updateAllowlist s.mem }
+
+/-- effects of `set_allowlist`: 1 = `clear()`, 2 = the inserts, 3 = `update_node_allowlist` -/
+def alSetEff (entries : List (Option Nat)) : Nat → St → St := fun i s =>
+  if i = 1 then { s with mem := { s.mem with allow := [] } }
+  else if i = 2 then { s with mem := { s.mem with allow := alNew s .add entries } }
+  else { s with disk := s.disk.updateAllowlist s.mem }
+
+def resOf (b : Bool) : Res := if b then .ok else .err
+
+/-- **C10_gen_model_allowlist** (generated obligation): the model's allowlist requests are the extracted shapes
+    of `add_allowlist`, `remove_allowlist` and `set_allowlist` run with the model's check and effects -/
+theorem C10_gen_model_allowlist (s : St) (entries : List (Option Nat)) :
+    (let r := exec (toStmts (alChk entries) (alEff .add entries) 0 (Gen.ReqShape.evs .add_allowlist)) s
+     (r.1, resOf r.2)) = allowlistOp s .add entries ∧
+    (let r := exec (toStmts (alChk entries) (alEff .rm entries) 0 (Gen.ReqShape.evs .remove_allowlist)) s
+     (r.1, resOf r.2)) = allowlistOp s .rm entries ∧
+    (let r := exec (toStmts (alChk entries) (alSetEff entries) 0 (Gen.ReqShape.evs .set_allowlist)) s
+     (r.1, resOf r.2)) = allowlistOp s .set entries := by
+  refine ⟨?_, ?_, ?_⟩ <;>
+    cases h : parseAll entries <;>
+    simp [Gen.ReqShape.evs, toStmts, exec, alChk, alEff, alSetEff, alNew, resOf, allowlistOp, h,
+      Core.updateAllowlist]
+
+/-- checks of `find_or_create_channel` by statement index: 0 = the high-water mark, 1 = the map limit -/
+def ncChk (c : Cfg) (dbid : Nat) : Nat → St → Bool := fun i s =>
+  if i = 0 then !decide (dbid ≤ s.mem.hwm) else !decide (c.maxChannels ≤ s.mem.stubs.length + 1)
+
+/-- effects: 2 = the insert into the channel map, 3 = `Persist::new_channel` -/
+def ncEff (dbid : Nat) : Nat → St → St := fun i s =>
+  if i = 2 then
+    { s with mem := { s.mem with stubs := s.mem.stubs ++ [dbid] },
+             created := if s.created.contains dbid then s.created else s.created ++ [dbid],
+             births := (dbid, s.height) :: s.births.filter (fun b => b.1 != dbid) }
+  else { s with disk := { s.disk with stubs := s.disk.stubs ++ [dbid] } }
+
+/-- **C10_gen_model_new_channel** (generated obligation): for an id that has no slot yet, the model's `newChannel`
+    is the extracted shape of `find_or_create_channel` run with the model's checks and effects (an existing slot
+    is returned without any effect, before the insert) -/
+theorem C10_gen_model_new_channel (c : Cfg) (s : St) (dbid : Nat) (hfresh : s.mem.stubs.contains dbid = false) :
+    (let r := exec (toStmts (ncChk c dbid) (ncEff dbid) 0 (Gen.ReqShape.evs .find_or_create_channel)) s
+     (r.1, resOf r.2)) = newChannel c s dbid := by
+  by_cases h1 : dbid ≤ s.mem.hwm
+  · simp [Gen.ReqShape.evs, toStmts, exec, ncChk, resOf, newChannel, h1]
+  · by_cases h2 : c.maxChannels ≤ s.mem.stubs.length + 1
+    · simp [Gen.ReqShape.evs, toStmts, exec, ncChk, resOf, newChannel, h1, h2]
+    · have hf : dbid ∉ s.mem.stubs := by simpa using hfresh
+      simp [Gen.ReqShape.evs, toStmts, exec, ncChk, ncEff, resOf, newChannel, h1, h2, hf]
+
 /-! ### Non-vacuity -/
 
 def cfg0 : Cfg := { maxInvoices := 4, maxChannels := 3, readyOid := 1, now := 1600000000 }
@@ -299,6 +452,12 @@ def s0 : St := St.init (Velocity.VC.ofSpec ⟨10000000, .hourly⟩)
 example : ∃ s1 s2, step cfg0 s0 (.al .add [some 1]) = some (s1, .ok) ∧ s1.mem.allow = [1]
     ∧ step cfg0 s1 (.al .set [some 2, none]) = some (s2, .err) ∧ s2.mem.allow = [1] :=
   ⟨_, _, rfl, rfl, rfl, rfl⟩
+
+/-- an issued invoice: the same one again is answered, a different invoice for the same hash is refused
+    (and changes nothing) -/
+example : ((run cfg0 s0 [.sinv 0 100000, .sinv 0 100000, .sinv 0 1000, .sinv 1 0, .sinv 1 5000, .sinv 1 0]).map
+    (fun r => (r.2, r.1.mem.issued))) = some ([.ok, .ok, .err, .ok, .ok, .err], [(0, 100000), (1, 5000)]) := by
+  decide
 
 /-- a refused channel creation after its id was retired -/
 example : ((run cfg0 s0 [.newch 3, .forget 1, .newch 3, .newch 2]).map (·.2)) = some [.ok, .ok, .err, .err] := by
